@@ -523,7 +523,9 @@ def g_oscillators(rng, nmax=6):
 
 def g_mixed(rng, nmax=6, p_core=0.4):
     r = rng.random()
-    if nmax >= 5 and r > 0.92:
+    if nmax >= 5 and r > 0.96:
+        return g_oscillators(rng, nmax) if rng.random() < 0.5 else g_union(rng, nmax, nested=True)
+    if nmax >= 5 and r > 0.90:
         return g_union(rng, nmax)
     if nmax >= 5 and r < 0.12:
         return g_modulated(rng, extra=nmax >= 6)
@@ -634,6 +636,14 @@ def with_decoy(mod, case, seed_str):
             case = dict(case, bnet=mangle_names(rng, case["bnet"]))
         if rng.random() < getattr(mod, "FREE_INPUTS", 0.06):
             case = dict(case, bnet=free_inputs(rng, case["bnet"]))
+        if rng.random() < getattr(mod, "RARE_CFG", 0.0):
+            # rarely used values of options that select other code paths but must not change any result
+            cfg = dict(case.get("cfg", {}))
+            for key, vals in (("nfvs_size_threshold", [0, 1, 3]), ("retained_set_optimization_threshold", [0, 1, 2, 5]),
+                              ("minimum_simulation_budget", [0, 1, 7])):
+                if key not in cfg and rng.random() < 0.5:
+                    cfg[key] = rng.choice(vals)
+            case = dict(case, cfg=cfg)
         if "order" not in case and rng.random() < getattr(mod, "ORDER", 0.08):
             # variables declared in a non-alphabetical order (`BooleanNetwork(variables=[...])`; honoured by plain.make_sd)
             case = dict(case, order=[rng.randrange(64) for _ in range(8)])
